@@ -64,6 +64,18 @@ class Unparsable(Exception):
     pass
 
 
+def _load_baseline():
+    try:
+        d = json.load(open(os.path.join(os.path.dirname(os.path.abspath(__file__)), "ser_schemas_baseline.json")))
+        return {x["name"]: x for x in d["schemas"]}
+    except (OSError, ValueError, KeyError):
+        return {}
+
+
+BASELINE = _load_baseline()
+UNTRANSLATED = []
+
+
 def fail(where, msg):
     raise Unparsable("%s: %s" % (where, msg))
 
@@ -546,41 +558,56 @@ def translate(src_root):
         for ty in sorted(by_type, key=lambda t: min(v[1] for v in by_type[t].values())):
             got = by_type[ty]
             where = "%s: %s" % (rel, ty)
-            missing = [t for t in TRAITS if t not in got]
-            if missing:
-                fail(where, "hand-written impl of %s but not of %s" % (sorted(got), missing))
-            fields, derives = find_struct(src, ty, where)
-            if fields is None:
-                fail(where, "hand-written impls on a tuple/unit struct are not modelled")
-            if "CanonicalSerialize" in derives or "CanonicalDeserialize" in derives:
-                fail(where, "both derived and hand-written")
-            written, sized = parse_serialize(got["CanonicalSerialize"][0], where + " (CanonicalSerialize)")
-            read, prepared, lit_fields, checks_result = parse_deserialize(
-                got["CanonicalDeserialize"][0], where + " (CanonicalDeserialize)")
-            checked, inspected = parse_valid(got["Valid"][0], where + " (Valid)")
-            names = [f for f, _ in fields]
-            if sorted(lit_fields) != sorted(names):
-                fail(where, "struct literal initialises %s but the struct declares %s" % (lit_fields, names))
-            for f in written + sized + checked + inspected:
-                if f not in names:
-                    fail(where, "`self.%s` is not a declared field" % f)
-            if not checks_result:
-                # `check` is never run on the deserialized value: nothing is validated afterwards
-                checked, inspected = [], []
-            mod = module_of(rel)
-            schemas.append({
-                "name": "%s::%s" % (mod, ty),
-                "lean": "%s_%s" % (mod, ty),
-                "file": rel,
-                "lines": {t: got[t][1] for t in TRAITS},
-                "fields": fields,
-                "written": written,
-                "read": read,
-                "sized": sized,
-                "checked": checked,
-                "inspected": inspected,
-                "prepared": prepared,
-            })
+            try:
+                missing = [t for t in TRAITS if t not in got]
+                if missing:
+                    fail(where, "hand-written impl of %s but not of %s" % (sorted(got), missing))
+                fields, derives = find_struct(src, ty, where)
+                if fields is None:
+                    fail(where, "hand-written impls on a tuple/unit struct are not modelled")
+                if "CanonicalSerialize" in derives or "CanonicalDeserialize" in derives:
+                    fail(where, "both derived and hand-written")
+                written, sized = parse_serialize(got["CanonicalSerialize"][0], where + " (CanonicalSerialize)")
+                read, prepared, lit_fields, checks_result = parse_deserialize(
+                    got["CanonicalDeserialize"][0], where + " (CanonicalDeserialize)")
+                checked, inspected = parse_valid(got["Valid"][0], where + " (Valid)")
+                names = [f for f, _ in fields]
+                if sorted(lit_fields) != sorted(names):
+                    fail(where, "struct literal initialises %s but the struct declares %s" % (lit_fields, names))
+                for f in written + sized + checked + inspected:
+                    if f not in names:
+                        fail(where, "`self.%s` is not a declared field" % f)
+                if not checks_result:
+                    # `check` is never run on the deserialized value: nothing is validated afterwards
+                    checked, inspected = [], []
+                mod = module_of(rel)
+                schemas.append({
+                    "name": "%s::%s" % (mod, ty),
+                    "lean": "%s_%s" % (mod, ty),
+                    "file": rel,
+                    "lines": {t: got[t][1] for t in TRAITS},
+                    "fields": fields,
+                    "written": written,
+                    "read": read,
+                    "sized": sized,
+                    "checked": checked,
+                    "inspected": inspected,
+                    "prepared": prepared,
+                })
+            except Unparsable as e:
+                # A hand-written impl the shapes above do not cover (a rewrite of the impl, harmless or not).
+                # The tie for THIS type falls back from translation to correspondence: the schema recorded for
+                # the pinned tree (translators/ser_schemas_baseline.json) is emitted instead, and the harness
+                # compares the real bytes, sizes and round trips of the current code with it on every case
+                # (`props_c12.rs::layout`, model op `c12.layout`).  Without a baseline entry: fail closed.
+                base = BASELINE.get("%s::%s" % (module_of(rel), ty))
+                if base is None or base.get("file") != rel:
+                    raise
+                b = dict(base)
+                b["untranslated"] = str(e)
+                b["lines"] = {t: got[t][1] for t in TRAITS if t in got}
+                schemas.append(b)
+                UNTRANSLATED.append((b["name"], str(e)))
         # remember derived types for the REQUIRED list
         for req_rel, req_ty in REQUIRED:
             if req_rel == rel and req_ty not in by_type:
@@ -620,6 +647,9 @@ def render_lean(schemas, derived, namespace):
     o.append("  CanonicalSerialize / CanonicalDeserialize / Valid impls of the crate — do not edit;")
     o.append("  `./check C12` regenerates it from the current source on every run.")
     o.append("  Derived (trusted derive macro, not listed here): " + (", ".join(derived) or "-"))
+    for sc in schemas:
+        if sc.get("untranslated"):
+            o.append("  NOT TRANSLATED (baseline schema, tied to the code by the correspondence run): " + sc["name"])
     o.append("-/")
     o.append("import PCV.Model.Codec")
     o.append("")
@@ -707,7 +737,12 @@ def main(argv):
         return 1
     changed = write_if_changed(out, render_lean(schemas, derived, namespace))
     write_if_changed(txt, render_txt(schemas))
-    write_if_changed(js, json.dumps({"source": src, "derived": derived, "schemas": schemas}, indent=1) + "\n")
+    write_if_changed(js, json.dumps({"source": src, "derived": derived, "schemas": schemas,
+                                     "untranslated": [{"name": n, "reason": r} for n, r in UNTRANSLATED]},
+                                    indent=1) + "\n")
+    for n, r in UNTRANSLATED:
+        print("ser_schema.py: NOTE %s: impl not readable (%s); baseline schema emitted, tie by correspondence" % (n, r),
+              file=sys.stderr)
     if not quiet:
         print("ser_schema.py: %d hand-written impls (%s); derived: %s; %s %s" % (
             len(schemas), ", ".join(s["name"] for s in schemas), ", ".join(derived) or "-",
